@@ -49,12 +49,23 @@ def gen_atom(rng, places, bitplaces, nested):
             if BITS.get(bp) == 1:
                 return ["not", ["bit", bp]]     # ~field: 1-bit fields only
             return ["not", ["cmp", "!=", ["p", bp], ["c", 0]]]
+        if rng.random() < 0.35:
+            # a bit field compared with a constant its width can hold
+            w = BITS.get(bp) or 1
+            return ["cmp", rng.choice(["==", "!=", "==", "!=", "<", ">="]),
+                    ["p", bp], ["c", rng.randrange(1 << w)]]
         return ["bit", bp]
     if r < 0.3:
         # bit test x & mask
-        t = ["b", "&", ["p", rng.choice(places)],
-             ["c", rng.choice([1, 2, 4, 8, 0x10, 0x80, 3, 0xf0, 0xff, 0x100,
-                               0x8000, 0x80000000, 0xffff0000])]]
+        m = rng.choice([1, 2, 4, 8, 0x10, 0x80, 3, 6, 0x30, 0xf0, 0xff,
+                        0x100, 0x8000, 0x80000000, 0xffff0000])
+        t = ["b", "&", ["p", rng.choice(places)], ["c", m]]
+        if rng.random() < 0.3:
+            # masked value compared with the mask, a part of it, or another
+            # constant
+            low = m & -m
+            return ["cmp", rng.choice(["==", "!="]), t,
+                    ["c", rng.choice([m, m, low, m ^ low, 0, 1])]]
         if nested or rng.random() < 0.5:
             return ["cmp", "!=", t, ["c", 0]]
         return ["truth", t]
